@@ -80,17 +80,30 @@ def grid_case(vd, region, shape, spacing, adj, pixel, extra, mesh, kind):
                 term, repro, kind, nontrivial=obs != "ValueError")
 
 
+_s2sform = [0]
+
+
 def s2s_case(vd, region, shape, pixel, adj, kind):
     from verde.coordinates import shape_to_spacing
-    sp = shape_to_spacing(region, shape, pixel_register=pixel)
+    # the shape (and the region) are handed over as tuple / list / int ndarray / float ndarray in rotation and the SAME
+    # objects are used for a second identical call: both answers must be the spacing of the values given
+    _s2sform[0] += 1
+    f = _s2sform[0] % 3
+    sobj = [tuple(shape), list(shape), np.array(shape)][f]
+    robj = [tuple(region), np.array(region, dtype="float64"), list(region)][f]
+    sp = shape_to_spacing(robj, sobj, pixel_register=pixel)
+    sp2 = shape_to_spacing(robj, sobj, pixel_register=pixel)
+    if tuple(float(v) for v in sp2) != tuple(float(v) for v in sp):
+        sp = sp2      # the second answer is the one judged
     g = vd.grid_coordinates(region, spacing=sp, adjust=ADJ[adj], pixel_register=pixel)
     oshape = g[0].shape
     term = "c07_shape_spacing %s (%s, %s) %s (%s, %s) (%s, %s)" % (
         clist([cD(x) for x in region]), cZ(shape[0]), cZ(shape[1]), cbool(pixel), cD(sp[0]), cD(sp[1]), cZ(oshape[0]), cZ(oshape[1]))
-    repro = ("import verde; from verde.coordinates import shape_to_spacing as f; sp=f(%r,%r,pixel_register=%r); "
-             "print(sp, verde.grid_coordinates(%r, spacing=sp, adjust=%r, pixel_register=%r)[0].shape)") % (
-        list(region), shape, pixel, list(region), ADJ[adj], pixel)
-    return Case({"fn": "shape_to_spacing", "region": list(region), "shape": shape, "pixel": pixel, "adjust": ADJ[adj]},
+    repro = ("import verde, numpy as np; from verde.coordinates import shape_to_spacing as f; s=%s; f(%r,s,pixel_register=%r); sp=f(%r,s,pixel_register=%r); "
+             "print(s, sp, verde.grid_coordinates(%r, spacing=sp, adjust=%r, pixel_register=%r)[0].shape)") % (
+        ["tuple(%r)", "list(%r)", "np.array(%r)"][f] % (list(shape),), list(region), pixel, list(region), pixel, list(region), ADJ[adj], pixel)
+    return Case({"fn": "shape_to_spacing", "region": list(region), "shape": shape, "shape_given_as": ["tuple", "list", "int ndarray"][f],
+                 "called_twice_with_same_objects": True, "pixel": pixel, "adjust": ADJ[adj]},
                 {"spacing": [float(sp[0]), float(sp[1])], "grid_shape": list(oshape)}, term, repro, kind)
 
 
@@ -170,6 +183,17 @@ def generate(tier, seed):
                         if reg[1] - reg[0] > 0 and (reg[1] - reg[0]) / min(np.atleast_1d(sp)) > 40:
                             continue
                         cases.append(core.guarded(lambda: grid_case(vd, reg, None, sp, adj, pix, extra, mesh, "grid-spacing"), {"fn": "grid_case"}, "grid_case"))
+    # regions whose (W, E) bounds are the same numbers as their (S, N) bounds, with per-direction spacings / non-square
+    # shapes: the two directions must still be built independently
+    for reg in [(0.0, 10.0, 0.0, 10.0), (-3.0, 4.5, -3.0, 4.5)]:
+        for sp in [(2.5, 1.0), (1.0, 2.5), (3.0, 4.0), (0.75, 1.5)]:
+            for adj in (0, 1):
+                for pix in (False, True):
+                    cases.append(core.guarded(lambda: grid_case(vd, reg, None, sp, adj, pix, None, bool(adj) or pix, "grid-square-region"),
+                                              {"fn": "grid_coordinates", "region": list(reg), "spacing": sp, "adjust": ADJ[adj], "pixel_register": pix}, "grid-square-region"))
+        for shp in [(2, 5), (5, 2), (3, 4)]:
+            cases.append(core.guarded(lambda: grid_case(vd, reg, shp, None, 0, shp[0] > 2, None, True, "grid-square-region"),
+                                      {"fn": "grid_coordinates", "region": list(reg), "shape": list(shp)}, "grid-square-region"))
     for reg in [(5.0, 0.0, 0.0, 1.0), (0.0, 1.0, 2.0, 1.0), (0.0, 1.0, 0.0), (0.0, 1.0, 0.0, 1.0, 2.0)]:
         cases.append(core.guarded(lambda: grid_case(vd, reg, (3, 3), None, 0, False, None, True, "grid-invalid"), {"fn": "grid_case"}, "grid_case"))
     cases.append(core.guarded(lambda: grid_case(vd, (0.0, 1.0, 0.0, 1.0), (3, 3), 0.5, 0, False, None, True, "grid-invalid"), {"fn": "grid_case"}, "grid_case"))
